@@ -311,6 +311,8 @@ def list_method(self, st, ref, o, name, args, kwargs, node):
 
 def dict_method(self, st, ref, o, name, args, kwargs, node):
     U = _U()
+    if name in ("update", "setdefault", "pop", "clear"):
+        self.emit(st, ("mutate", ref.oid, o.label, name))
     if name == "get":
         default = args[1] if len(args) > 1 else kwargs.get("default")
         if o.items is not None:
